@@ -301,22 +301,210 @@ fn case(rng: &mut Rng, st: &mut Stats, exact: bool) {
     }
 }
 
+/// Relaxed differentiation (operators without a rule are differentiated per operand or kept as
+/// they are): repeated, n-th and iterated differentiation in the same mode are the same
+/// computation, whatever the expression contains.
+fn relaxed_case(rng: &mut Rng, st: &mut Stats) {
+    let table = diff_table(rng, true);
+    let len = rng.range(1, 3);
+    let tree = gen_diff_tree(rng, &table, [6, 6, 4, 3][len]);
+    let vars = tree.vars();
+    let n = vars.len();
+    if n == 0 {
+        return;
+    }
+    let text = render(&tree, &table, rng, &RenderCfg::plain());
+    let m = rng.range(1, 2) as u8;
+    // repeated indices are likely, so that partial_nth blocks of order 2 and 3 occur
+    let first = rng.below(n);
+    let seq: Vec<usize> = (0..len).map(|_| if rng.chance(1, 2) { first } else { rng.below(n) }).collect();
+    let deep = rng.chance(1, 2);
+    let nondiff = nondiff_over_variable(&tree, &table);
+    st.bump("cases");
+    st.bump("relaxed_mode_cases");
+    if nondiff {
+        st.bump("relaxed_mode_cases_with_rule_less_operator_over_variable");
+    }
+    st.class(("relaxed", m, deep, seq.clone(), tree.shape_key(&table)));
+    let pts: Vec<Vec<f64>> = (0..2).map(|_| sample_point(rng, n)).collect();
+    let run = |way: usize| -> Result<Result<Vec<f64>, String>, String> {
+        catch(|| {
+            macro_rules! go {
+                ($e:expr) => {{
+                    match way {
+                        0 => {
+                            let mut cur = Ok($e);
+                            for &i in &seq {
+                                cur = cur.and_then(|c| c.partial_relaxed(i, mode(m)));
+                            }
+                            cur
+                        }
+                        1 => $e.partial_iter_relaxed(seq.iter().copied(), mode(m)),
+                        _ => {
+                            let mut cur = Ok($e);
+                            for (i, k) in blocks(&seq) {
+                                cur = cur.and_then(|c| c.partial_nth_relaxed(i, k, mode(m)));
+                            }
+                            cur
+                        }
+                    }
+                }};
+            }
+            let r = if deep { DeepEx::<f64>::parse(&text).and_then(|e| go!(e)).and_then(FlatEx::<f64>::from_deepex) } else { FlatEx::<f64>::parse(&text).and_then(|e| go!(e)) };
+            r.map(|d| pts.iter().map(|p| d.eval(p).unwrap_or(f64::NAN)).collect()).map_err(|e| e.msg().to_string())
+        })
+    };
+    let names = ["repeated partial_relaxed", "partial_iter_relaxed", "partial_nth_relaxed blocks"];
+    let detail = |what: &str, way: usize| json!({"kind": "relaxed-differentiation-bookkeeping", "text": text, "variables": vars, "index_sequence": seq, "mode": format!("{:?}", mode(m)), "form": if deep {"DeepEx"} else {"FlatEx"}, "how": names[way], "problem": what});
+    // the modes concern binary operators; a unary operator without a rule is an error in every
+    // mode - then in all three ways alike
+    let mut vals: Vec<Vec<f64>> = vec![];
+    let mut errors: Vec<Option<String>> = vec![];
+    for way in 0..3 {
+        match run(way) {
+            Err(p) => {
+                st.violation(format!("relaxed-panic|{text}|{seq:?}"), text.len(), detail(&format!("panic: {p}"), way));
+                return;
+            }
+            Ok(Err(e)) => {
+                if e.contains("both zero") {
+                    st.bump("zero_to_the_zero_errors_not_judged");
+                    return;
+                }
+                errors.push(Some(e));
+                vals.push(vec![]);
+            }
+            Ok(Ok(v)) => {
+                errors.push(None);
+                vals.push(v);
+            }
+        }
+    }
+    if errors.iter().any(|e| e.is_some()) {
+        if let Some(way) = (0..3).find(|w| errors[*w].is_none()) {
+            let bad = (0..3).find(|w| errors[*w].is_some()).unwrap();
+            st.violation(
+                format!("relaxed-error-differs|{text}|{seq:?}|{m}"),
+                text.len(),
+                detail(&format!("{} returns an expression, {} the error: {}", names[way], names[bad], errors[bad].clone().unwrap()), way),
+            );
+        } else {
+            st.bump("relaxed_mode_errors_in_all_three_ways");
+        }
+        return;
+    }
+    for way in 1..3 {
+        for k in 0..2 {
+            let (a, b) = (vals[0][k], vals[way][k]);
+            if a.is_finite() && b.is_finite() && a.abs() < 1e6 {
+                st.bump("relaxed_mode_equivalences_compared");
+                if !close_pair(a, b, a.abs().max(b.abs())) {
+                    st.violation(
+                        format!("relaxed-differs|{}|{text}|{seq:?}|{m}", names[way]),
+                        text.len(),
+                        detail(&format!("value {b} vs repeated single relaxed derivatives {a} at {:?}", pts[k]), way),
+                    );
+                    return;
+                }
+            }
+        }
+    }
+}
+
+/// index errors on long texts with multi-byte variable names (the error is reported, whatever the
+/// text looks like, and before any work)
+fn long_text_index_case(rng: &mut Rng, st: &mut Stats) {
+    const NAMES: &[&str] = &["α", "β", "γδ", "x", "λ1", "ωmega", "y", "Δt", "θ", "π_r", "é", "ξ"];
+    let k = rng.range(2, 6);
+    let mut names: Vec<&str> = NAMES.to_vec();
+    rng.shuffle(&mut names);
+    names.truncate(k);
+    let terms = rng.range(6, 30);
+    let mut text = String::new();
+    if rng.chance(1, 2) {
+        text.push_str(&format!("{}+", rng.range(1, 120)));
+    }
+    for t in 0..terms {
+        if t > 0 {
+            text.push_str(["+", "-", "*", "/"][rng.below(4)]);
+        }
+        let v = *rng.pick(&names);
+        match rng.below(5) {
+            0 => text.push_str(&format!("sin({v})")),
+            1 => text.push_str(&format!("{v}^{}", rng.range(2, 3))),
+            2 => text.push_str(&format!("exp({v}*{})", *rng.pick(&names))),
+            3 => text.push_str(&format!("{}", rng.range(1, 9))),
+            _ => text.push_str(v),
+        }
+    }
+    let r = catch(|| FlatEx::<f64>::parse(&text).map(|e| e.var_names().len()));
+    let n = match r {
+        Ok(Ok(n)) => n,
+        _ => return,
+    };
+    let bad = n + [0, 0, 1, 64, 1usize << 32][rng.below(5)];
+    let deep = rng.chance(1, 2);
+    st.bump("cases");
+    st.bump("long_non_ascii_texts_with_invalid_index");
+    st.class(("long-index", deep, text.len() / 8, n));
+    for way in 0..4 {
+        let r = catch(|| {
+            let before = partial_calls();
+            macro_rules! go {
+                ($e:expr) => {
+                    match way {
+                        0 => $e.partial(bad).map(|_| ()),
+                        1 => $e.partial_nth(bad, 2).map(|_| ()),
+                        2 => $e.partial_iter([0, bad].into_iter()).map(|_| ()),
+                        _ => $e.partial_iter_relaxed([bad].into_iter(), MissingOpMode::None).map(|_| ()),
+                    }
+                };
+            }
+            let r = if deep { DeepEx::<f64>::parse(&text).and_then(|e| go!(e)) } else { FlatEx::<f64>::parse(&text).and_then(|e| go!(e)) };
+            (r.is_ok(), partial_calls() - before)
+        });
+        let how = ["partial", "partial_nth", "partial_iter", "partial_iter_relaxed"][way];
+        let problem = match r {
+            Err(p) => Some(format!("panic instead of an error: {p}")),
+            Ok((true, _)) => Some("an index not smaller than the number of variables was accepted".to_string()),
+            Ok((false, w)) if w != 0 => Some(format!("{w} derivative computations were started although the index is invalid")),
+            _ => None,
+        };
+        if let Some(p) = problem {
+            st.violation(
+                format!("long-index|{how}|{}|{}", p.split(':').next().unwrap_or(""), text.len().min(50)),
+                text.len(),
+                json!({"kind": "index-error-on-long-text", "text": text, "variables": n, "index": bad, "form": if deep {"DeepEx"} else {"FlatEx"}, "how": how, "problem": p}),
+            );
+            return;
+        }
+        st.bump("index_errors_before_any_work");
+    }
+}
+
 pub fn run(ctx: &Ctx) -> i32 {
     let n = ctx.n(40_000, 2_000_000);
     let stats = run_workers(ctx, 9, |w, rng, st| {
         let quota = share(n, w, ctx.threads);
         for i in 0..quota {
-            case(rng, st, i % 3 == 0);
+            match i % 8 {
+                5 => relaxed_case(rng, st),
+                7 => long_text_index_case(rng, st),
+                _ => case(rng, st, i % 3 == 0),
+            }
         }
     });
     let report = Report::new(
-        "random differentiable trees (f64: + - * / ^, 18 elementary functions; exact rationals: + - * / integer powers) x index sequences of length 0..4 with entries in 0..n+2 (a third of the sequences contain an out-of-range entry at a random position) x {FlatEx, DeepEx} x four ways of differentiating (repeated partial, partial_iter, partial_nth blocks, partial_iter_relaxed with a random MissingOpMode). Oracle: any out-of-range entry => Err, and for the iterated forms the hook counter of started derivative computations (H2) is unchanged; otherwise identical variable list, all four ways agree at random points (exactly over rationals, 1e-7 relative over f64 at guarded points), order zero is the identity, mixed partials agree in both orders and with the nested-dual reference. distinct_nontrivial = distinct (exactness, form, index sequence, tree shape) classes.",
+        "random differentiable trees (f64: + - * / ^, 18 elementary functions; exact rationals: + - * / integer powers) x index sequences of length 0..4 with entries in 0..n+2 (a third of the sequences contain an out-of-range entry at a random position) x {FlatEx, DeepEx} x four ways of differentiating (repeated partial, partial_iter, partial_nth blocks, partial_iter_relaxed with a random MissingOpMode). Oracle: any out-of-range entry => Err, and for the iterated forms the hook counter of started derivative computations (H2) is unchanged; otherwise identical variable list, all four ways agree at random points (exactly over rationals, 1e-7 relative over f64 at guarded points), order zero is the identity, mixed partials agree in both orders and with the nested-dual reference. Relaxed modes (PerOperand, None) on trees that contain operators without a derivative rule: repeated partial_relaxed, partial_iter_relaxed and partial_nth_relaxed blocks agree. Invalid indices on long texts (up to 30 terms) with multi-byte variable names are errors before any work through every entry point. distinct_nontrivial = distinct (exactness, form, index sequence, tree shape) classes.",
     )
     .assume("repeated single `partial` calls legitimately do work before they reach an invalid index; 'before any work is done' is judged for partial_iter / partial_nth / relaxed variants and for sequences whose first entry is invalid")
     .require("index_errors_before_any_work", 1000)
     .require("equivalences_compared", 10000)
     .require("order_zero_checked", 500)
     .require("mixed_partials_compared", 500)
-    .require("sequences_of_length_4", 1000);
+    .require("sequences_of_length_4", 1000)
+    .require("relaxed_mode_equivalences_compared", 3000)
+    .require("relaxed_mode_cases_with_rule_less_operator_over_variable", 500)
+    .require("long_non_ascii_texts_with_invalid_index", 1000);
     finish(ctx, stats, report)
 }
